@@ -653,6 +653,9 @@ class System:
             return m.currentspace
 
     def close_model(self, model):
+        if self.models.get(model.name) is not model:
+            # Already closed. Another model may have taken the name.
+            return
         model.refmgr.del_all_spec()
         del self.models[model.name]
         if self.currentmodel is model:
